@@ -88,7 +88,7 @@ func ParseTerm(raw json.RawMessage) (*Term, error) {
 			return nil, err
 		}
 		return t, sub(arr[3])
-	case "fold":
+	case "fold", "arg":
 		if err := json.Unmarshal(arr[1], &t.F); err != nil {
 			return nil, err
 		}
@@ -129,6 +129,7 @@ type Palette struct {
 
 // Result of an evaluation.
 type Val struct {
+	Tol   float64 // absolute tolerance for accumulations of non-integers (n * eps * sum of magnitudes)
 	V     interface{}
 	Exact bool // false: compare with tolerance (result of a maths routine / accumulation of non-integers)
 	Open  bool // true: the property leaves this position open (integer division by zero, ...)
@@ -141,8 +142,13 @@ type Evaluator struct {
 	CellDT func(id int) *DT   // element type of the allocation a cell belongs to (nil: D)
 }
 
+var subAlias = map[string]string{"sum": "add", "reduce": "add", "argmax": "max", "argmin": "min"}
+
 func (e *Evaluator) f(name string) string {
 	if name == "OP" {
+		if a, ok := subAlias[e.Sub]; ok {
+			return a
+		}
 		return e.Sub
 	}
 	return name
@@ -220,30 +226,63 @@ func (e *Evaluator) Eval(t *Term) Val {
 		return Val{V: e.D.FromInt(0), Exact: true}
 	case "fold":
 		var acc Val
+		sumAbs := 0.0
 		for i, x := range t.Args {
 			xv := e.Eval(x)
 			if xv.Open {
 				return xv
 			}
+			sumAbs += Magnitude(xv.V)
 			if i == 0 {
 				acc = xv
 				continue
 			}
-			v, exact, ok := Binary(e.D, t.F, acc.V, xv.V)
+			v, exact, ok := Binary(e.D, e.f(t.F), acc.V, xv.V)
 			if !ok {
 				return Val{Open: true}
 			}
 			acc = Val{V: v, Exact: exact && acc.Exact && xv.Exact}
 		}
 		// accumulation of non-integers: rounding order is not specified
-		if e.D.Class >= CFloat && len(t.Args) > 2 && (t.F == "add" || t.F == "mul") {
-			if _, isInt := ToInt64(acc.V); !isInt {
-				acc.Exact = false
-			}
+		if ff := e.f(t.F); e.D.Class >= CFloat && len(t.Args) > 2 && (ff == "add" || ff == "mul") {
+			acc.Exact = false
+			acc.Tol = 4 * float64(len(t.Args)) * Eps(e.D) * sumAbs
 		}
 		return acc
+	case "arg":
+		best := -1
+		var bv interface{}
+		for i, x := range t.Args {
+			xv := e.Eval(x)
+			if xv.Open {
+				return xv
+			}
+			if f, ok := xv.V.(float64); ok && f != f {
+				return Val{Open: true} // NaN: left open
+			}
+			if f, ok := xv.V.(float32); ok && f != f {
+				return Val{Open: true}
+			}
+			if best < 0 {
+				best, bv = i, xv.V
+				continue
+			}
+			op := "gt"
+			if e.f(t.F) == "min" {
+				op = "lt"
+			}
+			better, ok := Compare(e.D, op, xv.V, bv)
+			if !ok {
+				return Val{Open: true}
+			}
+			if better {
+				best, bv = i, xv.V
+			}
+		}
+		return Val{V: best, Exact: true}
 	case "dot":
 		acc := Val{V: e.D.Zero(), Exact: true}
+		sumAbs := 0.0
 		for i := 0; i+1 < len(t.Args); i += 2 {
 			a, b := e.Eval(t.Args[i]), e.Eval(t.Args[i+1])
 			if a.Open || b.Open {
@@ -253,14 +292,16 @@ func (e *Evaluator) Eval(t *Term) Val {
 			if !ok {
 				return Val{Open: true}
 			}
+			sumAbs += Magnitude(p)
 			s, _, ok := Binary(e.D, "add", acc.V, p)
 			if !ok {
 				return Val{Open: true}
 			}
 			acc = Val{V: s, Exact: acc.Exact && a.Exact && b.Exact}
 		}
-		if _, isInt := ToInt64(acc.V); !isInt {
+		if e.D.Class >= CFloat {
 			acc.Exact = false
+			acc.Tol = 4 * float64(len(t.Args)) * Eps(e.D) * sumAbs
 		}
 		return acc
 	}
@@ -762,4 +803,50 @@ func Compare(d *DT, op string, a, b interface{}) (r bool, ok bool) {
 		}
 	}
 	return false, false
+}
+
+// Eps is the machine epsilon of the (real part of the) element type.
+func Eps(d *DT) float64 {
+	switch d.Name {
+	case "float32", "complex64":
+		return 0x1p-23
+	}
+	return 0x1p-52
+}
+
+// Magnitude of a numeric value as a float64 (0 for non-numeric values).
+func Magnitude(v interface{}) float64 {
+	switch x := v.(type) {
+	case float32:
+		return math.Abs(float64(x))
+	case float64:
+		return math.Abs(x)
+	case complex64:
+		return cmplx.Abs(complex128(x))
+	case complex128:
+		return cmplx.Abs(x)
+	}
+	if i, ok := ToInt64(v); ok {
+		return math.Abs(float64(i))
+	}
+	return 0
+}
+
+// Within: |a-b| <= tol (floats and complex); false for other types.
+func Within(a, b interface{}, tol float64) bool {
+	switch x := a.(type) {
+	case float32:
+		y, ok := b.(float32)
+		return ok && math.Abs(float64(x)-float64(y)) <= tol
+	case float64:
+		y, ok := b.(float64)
+		return ok && math.Abs(x-y) <= tol
+	case complex64:
+		y, ok := b.(complex64)
+		return ok && cmplx.Abs(complex128(x)-complex128(y)) <= tol
+	case complex128:
+		y, ok := b.(complex128)
+		return ok && cmplx.Abs(x-y) <= tol
+	}
+	return false
 }
